@@ -45,7 +45,7 @@ func init() {
 		Rule: "case = one add-package message (or one write attempt on /p/ package state) inside a generated history; histories mix fresh deployments, collisions (same/different content, same/other creator), " +
 			"private->private / private->public / public->private redeploys, private on /p/, test-only and filetest-only file sets, spoofed gnomod metadata, two add-packages in one tx, add-package followed by a failing message, " +
 			"a dictionary of invalid path strings (wrong domain, _test suffix, /e/../run, non r|p letter, case, //, ./.., trailing slash, unicode look-alikes, very long, empty segments, stdlib-looking, '#', control bytes, punctuation), " +
-			"namespace-registry operations, realm calls, restarts; oracle = reference model of accepted deployments + file/blob/marker equality after every block; " +
+			"each dictionary entry swept once per chain, imports of a '<path>#allbutprod' storage key, namespace-registry operations, realm calls, restarts; oracle = reference model of accepted deployments + file/blob/marker equality after every block, never-accepted strings serve nothing; " +
 			"non-trivial = the message is not a plain first deployment on a valid free path (collision, redeploy, invalid path, namespace decision with the registry enabled, test-only, multi-message, /p/ write); distinct by (history seed, op index)",
 		Run: run,
 	})
@@ -56,7 +56,7 @@ func init() {
 
 // Op is one generated transaction.
 type Op struct {
-	Kind    string `json:"kind"` // add | add2 | call | poke | runp | runinit | foreigninit | directassign | pcall | reg
+	Kind    string `json:"kind"` // add | add2 | call | poke | runp | runinit | foreigninit | directassign | importsibling | pcall | reg
 	Signer  string `json:"signer"`
 	Path    string `json:"path,omitempty"`
 	Class   string `json:"class,omitempty"` // valid | invalid-path class
@@ -132,16 +132,19 @@ type runner struct {
 	regPath                    string
 	sampled                    int
 	tDeliver, tCommit, tVerify time.Duration
+	tSec                       [5]time.Duration
+	fresh                      map[string]bool // paths attempted since the last verification
+	fullSweep                  bool            // query every never-accepted path (after restarts, at the end)
 }
 
 func run(c *vf.Ctx) {
 	var scen []scenario
 	if c.Quick() {
 		scen = []scenario{
-			{name: "open", blocks: 22, maxTxs: 6, pool: 12, restarts: 1},
-			{name: "open-private", blocks: 22, maxTxs: 6, pool: 8, restarts: 1},
-			{name: "registry", registry: "custom", blocks: 24, maxTxs: 6, pool: 14, restarts: 1},
-			{name: "registry-altpath", registry: "custom-altpath", blocks: 20, maxTxs: 6, pool: 10, restarts: 0},
+			{name: "open", blocks: 20, maxTxs: 6, pool: 12, restarts: 0},
+			{name: "open-private", blocks: 20, maxTxs: 6, pool: 8, restarts: 1},
+			{name: "registry", registry: "custom", blocks: 22, maxTxs: 6, pool: 14, restarts: 1},
+			{name: "registry-altpath", registry: "custom-altpath", blocks: 18, maxTxs: 6, pool: 10, restarts: 0},
 		}
 	} else {
 		for i := 0; i < 4; i++ {
@@ -179,7 +182,8 @@ func run(c *vf.Ctx) {
 	c.RequireCounter("qfile_bodies_compared", 200)
 	c.RequireCounter("pkg_blobs_decoded", 100)
 	c.RequireCounter("multi_message_txs_rolled_back", 1)
-	c.Require("distinct invalid-path classes rejected", int64(len(classCounters(c))), 10)
+	c.Require("distinct invalid-path classes rejected", int64(len(classCounters(c))), int64(len(allClasses)))
+	c.RequireCounter("dictionary_sweep_ops", 80)
 }
 
 func classCounters(c *vf.Ctx) []string {
@@ -502,7 +506,12 @@ func (r *runner) genOp() *Op {
 		return &Op{Kind: "runp", Signer: pick(rng, creators), Arg: rng.IntN(len(RunStmts))}
 	case k < 93 && len(pures) > 0:
 		return &Op{Kind: "pcall", Signer: pick(rng, creators), Path: pick(rng, pures)}
+	case k < 94:
+		return &Op{Kind: "directassign", Signer: pick(rng, creators)}
 	case k < 95:
+		if withTests := r.sortedPaths(func(_ string, d *dep) bool { return hasTestFiles(d.Files) }); len(withTests) > 0 {
+			return &Op{Kind: "importsibling", Signer: pick(rng, creators), Ns: pick(rng, withTests) + "#allbutprod"}
+		}
 		return &Op{Kind: "directassign", Signer: pick(rng, creators)}
 	case k < 97:
 		return &Op{Kind: "runinit", Signer: pick(rng, creators), Arg: rng.IntN(len(InitStmts))}
@@ -648,6 +657,7 @@ func (r *runner) play() {
 	for i := 1; i <= r.sc.restarts; i++ {
 		restartAt[i*r.sc.blocks/(r.sc.restarts+1)] = true
 	}
+	r.sweep()
 	for b := 0; b < r.sc.blocks && !r.broken; b++ {
 		if restartAt[b] {
 			if err := r.ch.Restart(); err != nil {
@@ -655,7 +665,9 @@ func (r *runner) play() {
 			}
 			c.Count("restarts", 1)
 			c.Logf("%s seed %d: restarted before block %d", r.sc.name, r.seed, b)
+			r.fullSweep = true
 			r.verify(nil) // everything must still be served after a cold start
+			r.fullSweep = false
 			c.Logf("%s seed %d: verified after restart", r.sc.name, r.seed)
 		}
 		n := 1 + r.rng.IntN(r.sc.maxTxs)
@@ -672,14 +684,42 @@ func (r *runner) play() {
 		r.ch.EndBlockCommit()
 		t2 := time.Now()
 		if !r.broken {
+			r.fullSweep = b == r.sc.blocks-1
 			r.verify(accepted)
 		}
 		r.tDeliver += t1.Sub(t0)
 		r.tCommit += t2.Sub(t1)
 		r.tVerify += time.Since(t2)
 	}
-	c.Logf("%s seed %d: deliver %v commit %v verify %v", r.sc.name, r.seed, r.tDeliver, r.tCommit, r.tVerify)
+	c.Logf("%s seed %d: deliver %v commit %v verify %v (qfile %v, undeployed %v, pkg-keys %v, markers %v, p-state %v)", r.sc.name, r.seed, r.tDeliver, r.tCommit, r.tVerify, r.tSec[0], r.tSec[1], r.tSec[2], r.tSec[3], r.tSec[4])
 	c.Logf("%s seed %d: %d ops, %d packages deployed, height %d", r.sc.name, r.seed, len(r.ops), len(r.m.pkgs), r.ch.Height)
+}
+
+// sweep sends every entry of the invalid-path dictionary (built around one valid
+// base path per chain) once, while no namespace registry is enforcing, so that a
+// path accepted by mistake cannot be masked by a namespace rejection.
+func (r *runner) sweep() {
+	bases := [][3]string{{"r", "verif", "aa"}, {"p", r.addr("bob"), "bb"}, {"r", "team1", "cc"}, {"p", "ver-if", "dd"}}
+	b := bases[int(r.seed)%len(bases)]
+	dict := invalidPaths(b[0], b[1], b[2], r.addr("alice"))
+	for i := 0; i < len(dict) && !r.broken; {
+		r.ch.BeginBlock()
+		accepted := map[string]bool{}
+		for n := 0; n < 30 && i < len(dict) && !r.broken; n, i = n+1, i+1 {
+			if parsePath(dict[i].Path).Valid {
+				panic("dictionary entry is valid in the model: " + dict[i].Path)
+			}
+			r.nMarker++
+			op := &Op{Kind: "add", Signer: "alice", Class: dict[i].Class, Path: dict[i].Path, Files: "prod", Marker: fmt.Sprintf("m%d-%d", r.seed, r.nMarker)}
+			r.ops = append(r.ops, op)
+			r.playOp(op, accepted)
+			r.c.Count("dictionary_sweep_ops", 1)
+		}
+		r.ch.EndBlockCommit()
+		if !r.broken {
+			r.verify(accepted)
+		}
+	}
 }
 
 func (r *runner) deliver(signer string, msgs ...std.Msg) *chainsim.TxResult {
@@ -722,7 +762,7 @@ func (r *runner) playOp(op *Op, accepted map[string]bool) {
 		var fileSets []map[string]string
 		okAll, reason := true, ""
 		for _, o := range ops {
-			r.m.attempted[o.Path] = true
+			r.attempt(o.Path)
 			files := buildFiles(o, spoofAddr())
 			fileSets = append(fileSets, files)
 			msgs = append(msgs, chainsim.MsgAddPkg(signer, o.Path, files))
@@ -789,6 +829,8 @@ func (r *runner) playOp(op *Op, accepted map[string]bool) {
 				}
 				if hasTestFiles(fileSets[i]) {
 					c.Count("deployed_with_test_files", 1)
+					// the storage key of the test-file sibling blob is not a package path: nothing may be served under it
+					r.attempt(o.Path + "#allbutprod")
 				}
 				if o.Spoof {
 					c.Count("deployed_with_spoofed_metadata", 1)
@@ -861,7 +903,7 @@ func (r *runner) playOp(op *Op, accepted map[string]bool) {
 			r.nForeign++
 			name := fmt.Sprintf("dassign%d", r.nForeign)
 			op.Path = chainDomain + "/r/" + r.addr(op.Signer) + "/" + name
-			r.m.attempted[op.Path] = true
+			r.attempt(op.Path)
 			msg = chainsim.MsgAddPkg(signer, op.Path, map[string]string{name + ".gno": DirectAssignRealm(name)})
 			what = "add-package with a direct assignment to a /p/ package variable"
 		}
@@ -874,6 +916,22 @@ func (r *runner) playOp(op *Op, accepted map[string]bool) {
 		} else {
 			c.Count("p_write_attempts_rejected", 1)
 			c.Count("p_write_rejected:"+op.Kind, 1)
+		}
+	case "importsibling":
+		// the storage key of a test-file sibling blob ("<path>#allbutprod") is not an importable package
+		r.nForeign++
+		name := fmt.Sprintf("isib%d", r.nForeign)
+		op.Path = chainDomain + "/r/" + r.addr(op.Signer) + "/" + name
+		r.attempt(op.Path)
+		src := "package " + name + "\n\nimport _ \"" + op.Ns + "\"\n\nfunc Marker() string { return \"x\" }\n"
+		tr := r.deliver(op.Signer, chainsim.MsgAddPkg(signer, op.Path, map[string]string{name + ".gno": src}))
+		finish(tr)
+		c.Case(caseKey, true)
+		if tr.OK {
+			c.Violation("sibling-blob-importable", r.witness(map[string]any{"op_index": idx, "source": src}), "%s seed %d op %d: a realm importing %q (the storage key of a test-file blob) was deployed", r.sc.name, r.seed, idx, op.Ns)
+			r.broken = true
+		} else {
+			c.Count("add_rejected:import-of-sibling-key", 1)
 		}
 	case "runinit":
 		tr := r.deliver(op.Signer, chainsim.MsgRun(signer, RunInitScript(InitStmts[op.Arg])))
@@ -892,7 +950,7 @@ func (r *runner) playOp(op *Op, accepted map[string]bool) {
 		r.nForeign++
 		name := fmt.Sprintf("finit%d", r.nForeign)
 		op.Path = chainDomain + "/r/" + r.addr(op.Signer) + "/" + name
-		r.m.attempted[op.Path] = true
+		r.attempt(op.Path)
 		files := map[string]string{"gnomod.toml": gnomodToml(op.Path, false, ""), name + ".gno": ForeignInitRealm(name, InitStmts[op.Arg], op.ViaVar)}
 		tr := r.deliver(op.Signer, chainsim.MsgAddPkg(signer, op.Path, files))
 		finish(tr)
@@ -917,6 +975,14 @@ func (r *runner) playOp(op *Op, accepted map[string]bool) {
 	default:
 		panic("unknown op kind " + op.Kind)
 	}
+}
+
+func (r *runner) attempt(path string) {
+	r.m.attempted[path] = true
+	if r.fresh == nil {
+		r.fresh = map[string]bool{}
+	}
+	r.fresh[path] = true
 }
 
 func describe(d *dep) string {
@@ -972,6 +1038,11 @@ func (r *runner) verify(accepted map[string]bool) {
 	ch := r.ch
 	w := func(extra map[string]any) map[string]any { return r.witness(extra) }
 	paths := r.sortedPaths(nil)
+	tS := time.Now()
+	lap := func(i int) {
+		r.tSec[i] += time.Since(tS)
+		tS = time.Now()
+	}
 	// ---- (1) vm/qfile: file lists and bodies
 	for _, p := range paths {
 		d := r.m.pkgs[p]
@@ -1002,25 +1073,47 @@ func (r *runner) verify(accepted map[string]bool) {
 			}
 		}
 	}
+	lap(0)
 	// ---- (2) paths that were never accepted serve nothing
+	// (every such path is queried after the block that attempted it, after every restart and at the end of the history)
 	var att []string
 	for p := range r.m.attempted {
-		if r.m.pkgs[p] == nil {
+		if r.m.pkgs[p] == nil && (r.fullSweep || r.fresh[p]) {
 			att = append(att, p)
 		}
 	}
+	r.fresh = map[string]bool{}
 	sort.Strings(att)
 	for _, p := range att {
 		if _, isStdlib := r.baseline["pkg:_/"+p]; isStdlib {
 			continue // a dictionary string that names a real standard library (served from its genesis blob, which check (3) pins)
 		}
-		got, err := ch.Query("vm/qfile", p)
+		// vm/qfile reads its argument as dir[/file] (std.SplitFilepath: trailing slashes are trimmed, a last element
+		// with a dot is a file name): a hostile string may therefore legitimately address a deployed package
+		if dir, file := splitQuery(p); dir != p {
+			if d := r.m.pkgs[dir]; d != nil {
+				if _, has := d.Files[file]; file == "" || has {
+					continue
+				}
+			}
+		}
+		var got string
+		var err error
+		if pv := vf.Try(func() { got, err = ch.Query("vm/qfile", p) }); pv != nil {
+			key := "query-panics:qfile"
+			if strings.HasSuffix(p, "#allbutprod") && r.m.pkgs[strings.TrimSuffix(p, "#allbutprod")] != nil {
+				key = "query-panics:qfile-allbutprod-suffix"
+			}
+			c.Violation(key, w(map[string]any{"query": "vm/qfile", "data": p, "panic": fmt.Sprint(pv)}), "%s seed %d height %d: the ABCI query vm/qfile %q panics (%v) instead of answering that nothing is deployed there", r.sc.name, r.seed, ch.Height, p, pv)
+			continue
+		}
 		c.Count("undeployed_paths_queried", 1)
 		if err == nil {
 			c.Violation("qfile-serves-undeployed-path", w(map[string]any{"path": p, "got": got}), "%s seed %d height %d: vm/qfile %q serves %q although no deployment to it was ever accepted", r.sc.name, r.seed, ch.Height, p, got)
 			r.broken = true
 		}
 	}
+	lap(1)
 	// ---- (3) pkg: keys of the main store (independent read-only view)
 	v, err := audit.Open(ch.DB, 0)
 	if err != nil {
@@ -1103,6 +1196,10 @@ func (r *runner) verify(accepted map[string]bool) {
 		for _, f := range mp.Files {
 			gotF[f.Name] = f.Body
 		}
+		if !d.learned { // the served gnomod.toml could not be learned (an earlier clause already failed): compare the rest
+			delete(exp, "gnomod.toml")
+			delete(gotF, "gnomod.toml")
+		}
 		if mp.Path != p || !sameFiles(exp, gotF) {
 			c.Violation("pkg-blob-differs:"+ctxOf(d), w(map[string]any{"key": k, "want_files": fileNames(exp), "got_files": fileNames(gotF)}),
 				"%s seed %d height %d: stored blob %q holds path %q files %v, the model has %v (%s)", r.sc.name, r.seed, ch.Height, k, mp.Path, fileNames(gotF), fileNames(exp), describe(d))
@@ -1135,6 +1232,7 @@ func (r *runner) verify(accepted map[string]bool) {
 		r.broken = true
 	}
 	r.prevPkg = cur
+	lap(2)
 	// ---- (4) executable code: Marker() of every package
 	for _, p := range paths {
 		d := r.m.pkgs[p]
@@ -1153,8 +1251,10 @@ func (r *runner) verify(accepted map[string]bool) {
 			r.broken = true
 		}
 	}
+	lap(3)
 	// ---- (5) /p/ target state
 	r.checkMutState(v)
+	lap(4)
 }
 
 func (r *runner) checkMutState(v *audit.View) {
@@ -1225,6 +1325,19 @@ func (r *runner) checkToml(p string, d *dep, body string, qerr error) {
 	c.Count("gnomod_metadata_validated", 1)
 	d.Files["gnomod.toml"] = body
 	d.learned = true
+}
+
+// splitQuery mirrors how vm/qfile reads its argument.
+func splitQuery(p string) (dir, file string) {
+	i := strings.LastIndex(p, "/")
+	if i < 0 {
+		return p, ""
+	}
+	dir, file = p[:i+1], p[i+1:]
+	if strings.Contains(file, ".") || file == "LICENSE" || file == "README" || file == "" {
+		return strings.TrimRight(dir, "/"), file
+	}
+	return p, ""
 }
 
 func fingerprint(b []byte) string {
